@@ -6,6 +6,8 @@ import (
 	"encoding/json"
 	"errors"
 	"fmt"
+	"io"
+	"math"
 
 	"go.sia.tech/core/types"
 )
@@ -311,8 +313,14 @@ func (r *RPCExecuteProgramResponse) DecodeFrom(d *types.Decoder) {
 	}
 	(*types.V1Currency)(&r.TotalCost).DecodeFrom(d)
 	(*types.V1Currency)(&r.FailureRefund).DecodeFrom(d)
-	r.Output = make([]byte, r.OutputLength)
-	d.Read(r.Output)
+	// NOTE: OutputLength is untrusted, so the output is read incrementally
+	// rather than allocated up front
+	output, err := io.ReadAll(io.LimitReader(d, int64(min(r.OutputLength, math.MaxInt64))))
+	if err == nil && uint64(len(output)) != r.OutputLength {
+		err = io.ErrUnexpectedEOF
+	}
+	d.SetErr(err)
+	r.Output = output
 }
 
 // EncodeTo implements ProtocolObject.
